@@ -246,3 +246,15 @@ b("krum-rowloop-l1-norm", ["C16"], "@seed", _os.path.join(_PD, "krum-rowloop-l1-
 # Conjunction / Stack checks through a family of frozensets and a Counter (see seeded_keep/C14-r8K1): the twins that accept a deviating member / duplicated outputs
 b("keysets-family-accepts-two", ["C14"], "@seed", _os.path.join(_PD, "keysets-family-accepts-two.diff"), "", "`len(family) > 2`: one member may require other keys")
 b("keysets-counter-never-raises", ["C14"], "@seed", _os.path.join(_PD, "keysets-counter-never-raises.diff"), "", "`total() < len()` is never true: members may output a common key")
+# Select through a membership filter (see seeded_keep/C02-r11K1): the comprehension spelling is silent, the complement and the filter on the wrong set are not
+k("select-filter-comprehension", ["C02", "C14", "C01", "C06", "C15", "C20"], "@seed", _os.path.join(_PD, "select-filter-comprehension.diff"), "", "{k: v for k, v in d.items() if k in keys} with keys a subset of d")
+b("select-filter-complement", ["C14", "C02"], "@seed", _os.path.join(_PD, "select-filter-complement.diff"), "", "`if key not in self.keys`: everything but the selection")
+b("select-filter-required-keys", ["C14", "C02"], "@seed", _os.path.join(_PD, "select-filter-required-keys.diff"), "", "filters on required_keys: nothing is dropped")
+# TrimmedMean as topk + slice (see seeded_keep/C10-r11K2)
+b("trimmedmean-topk-slice-off-by-one", ["C16"], "@seed", _os.path.join(_PD, "trimmedmean-topk-slice-off-by-one.diff"), "", "ranks [trim_number + 1, m - trim_number)")
+k("trimmedmean-topk-largest-then-slice", ["C16", "C10", "C08"], "@seed", _os.path.join(_PD, "trimmedmean-topk-largest-then-slice.diff"), "", "the m - b largest in descending order, without their first b: the same window")
+# UPGrad's sum over the projected vectors as a loop (see seeded_keep/C10-r11K1)
+b("upgrad-loop-position-weighted", ["C10"], "@seed", _os.path.join(_PD, "upgrad-loop-position-weighted.diff"), "", "(index + 1) * projection: the position of a row enters the result")
+b("upgrad-loop-store-at-zero", ["C10"], "@seed", _os.path.join(_PD, "upgrad-loop-store-at-zero.diff"), "", "u[0] = weight: every weight lands on the first row")
+# pdist scattered through triu_indices (see seeded_keep/C16-r8K1; the tril twin is seeded/C10-r11B)
+b("krum-pdist-upper-half-only", ["C10"], "@seed", _os.path.join(_PD, "krum-pdist-upper-half-only.diff"), "", "only the upper triangle receives the distances")
